@@ -1,5 +1,6 @@
 #![allow(dead_code, unused_mut)]
 mod checks;
+mod exec_oracle;
 mod gprint;
 mod model;
 mod pipe;
@@ -58,6 +59,7 @@ fn main() {
         "C20" => checks::c20::run(&tier, only.as_ref()),
         "C12" => checks::c12::run(&tier, only.as_ref()),
         "C12-WORKER" => checks::c12::worker_main(&args[2..]),
+        "C05" => checks::c05::run(&tier, only.as_ref()),
         "C08" => checks::c08::run(&tier, only.as_ref()),
         "C03" => checks::c03::run(&tier, only.as_ref()),
         _ => {
